@@ -55,7 +55,7 @@ STEP_K = 1500  # step budget = STEP_K * (len(text) + 64) PY_START events; see ca
 CPU_BASE_S = 1.5
 CPU_PER_CHAR_S = 0.0005
 ENUM_MAX_LEN = 8192
-ENUM_SLICES = 64
+ENUM_SLICES = 128
 FLIP_ALPHABET = "(){}[]<>%^#!@:,=-+*?|\"0x9.e\\ \n\t\x00é中²١\x0b\x0c'/~`\u00a0\u2028\u3000\u0085\x1c\x1f\u200b\ufeff\r"
 FAULT_KINDS = ("eof", "drop", "flip", "dup", "swap", "torn", "splice", "crlf", "bom", "utf8cut", "insert", "stutter", "tokrepl", "tokdel", "tokdup", "numtweak", "typetweak")
 
@@ -803,7 +803,12 @@ def _enum_task(args: tuple[int, int, int, list[tuple[int, int, int]] | None]) ->
     done = 0
     maxev = 0
     fps: list[int] = []
-    if explicit is not None:
+    if isinstance(explicit, tuple) and len(explicit) == 3 and explicit[0] == "range":
+        # a slice of one chunk's offsets (thorough tier: no task runs for more than a few minutes)
+        _, lo, hi = explicit
+        n = len(_CORPUS.w1[ci])
+        todo = [(mode, ci, k, 0) for mode in (1, 2) for k in range(max(first, lo), min(hi, n + (1 if mode == 1 else 0)), step)]
+    elif explicit is not None:
         todo = explicit
     else:
         n = len(_CORPUS.w1[ci])
@@ -921,7 +926,7 @@ class StreamEngine(Engine):
     level = "fault_enumeration"
     tiers = {
         "quick": {"runs": 16_000, "wall_cap_s": 240, "samples": 3},
-        "thorough": {"runs": 1_500_000, "wall_cap_s": 1500, "samples": 3},
+        "thorough": {"runs": 1_500_000, "wall_cap_s": 1200, "samples": 3},
     }
     shrink_order = ("faults", "cfg")
     no_delete = ("cfg",)
@@ -1132,11 +1137,15 @@ class StreamEngine(Engine):
         assert corpus is not None
         step = ENUM_SLICES if tier == "quick" else 1
         first = seed % ENUM_SLICES if tier == "quick" else 0
-        cap = float(os.environ.get("VERIF_ENUM_WALL_S", "0") or 0) or (200 if tier == "quick" else 2400)
+        cap = float(os.environ.get("VERIF_ENUM_WALL_S", "0") or 0) or (200 if tier == "quick" else 1800)
         tasks: list[tuple[int, int, int, Any]] = [(ci, first, step, None) for ci, t in enumerate(corpus.w1) if len(t) <= ENUM_MAX_LEN]
         # big chunks first: better load balance
         tasks.sort(key=lambda t: -len(corpus.w1[t[0]]))
         n_chunk_tasks = len(tasks)
+        if tier != "quick":
+            # every offset: split each chunk into slices of 1000 offsets, so that the wall cap
+            # below takes effect within minutes
+            tasks = [(ci, first, step, ("range", lo, lo + 1000)) for ci, _, _, _ in tasks for lo in range(0, len(corpus.w1[ci]) + 1, 1000)]
         strat: list[tuple[int, int, int]] = []
         if tier == "quick":
             strat = _strata(corpus, seed) + _num_strata(corpus, seed) + _type_strata(corpus, seed)  # type: ignore[operator]
